@@ -145,11 +145,7 @@ impl PatchChain {
     /// 2. Apply all patches in priority order
     /// 3. Return the fully patched result
     pub fn read_file(&mut self, filename: &str) -> Result<Vec<u8>> {
-        // Normalize filename and convert to uppercase for case-insensitive lookup
-        // This matches MPQ hashing behavior which is always case-insensitive
-        let lookup_key = crate::path::normalize_mpq_path(filename).to_uppercase();
-
-        if let Some(&archive_idx) = self.file_map.get(&lookup_key) {
+        if let Some(archive_idx) = self.locate(filename) {
             // Check if this is a patch file by examining the file info
             let file_info = self.archives[archive_idx]
                 .archive
@@ -268,18 +264,33 @@ impl PatchChain {
 
     /// Check if a file exists in the chain
     pub fn contains_file(&self, filename: &str) -> bool {
+        self.locate(filename).is_some()
+    }
+
+    /// Index of the highest-priority archive that holds a file
+    ///
+    /// The file map only knows the names the archives could list. An archive whose
+    /// listfile is missing or incomplete still serves its files by name, so every
+    /// archive that outranks the listed one (all of them when none lists the name)
+    /// is asked for the file itself.
+    fn locate(&self, filename: &str) -> Option<usize> {
+        // Normalize filename and convert to uppercase for case-insensitive lookup
+        // This matches MPQ hashing behavior which is always case-insensitive
         let lookup_key = crate::path::normalize_mpq_path(filename).to_uppercase();
-        self.file_map.contains_key(&lookup_key)
+        let listed = self.file_map.get(&lookup_key).copied();
+
+        self.archives[..listed.unwrap_or(self.archives.len())]
+            .iter()
+            .position(|entry| matches!(entry.archive.find_file(filename), Ok(Some(_))))
+            .or(listed)
     }
 
     /// Find which archive contains a file
     ///
     /// Returns the path to the archive containing the file, or None if not found.
     pub fn find_file_archive(&self, filename: &str) -> Option<&Path> {
-        let lookup_key = crate::path::normalize_mpq_path(filename).to_uppercase();
-        self.file_map
-            .get(&lookup_key)
-            .map(|&idx| self.archives[idx].path.as_path())
+        self.locate(filename)
+            .map(|idx| self.archives[idx].path.as_path())
     }
 
     /// List all files in the chain
